@@ -212,7 +212,7 @@ PROPS = {
     'C35': {
         'title': 'Snippet slices are valid, ordered, bounded ranges',
         'level': 'model_checking',
-        'level_text': 'prev_char_boundary and next_char_boundary: UNBOUNDED Verus proof on the functions extracted verbatim from src/lex.rs (result <= len, on a char boundary, nearest boundary at/below resp. at/above the index; termination). All five helpers (prev/next_char_boundary, sentence_start_before, sentence_end_after, advance_boundary) carry Kani function contracts (requires/ensures injected on the real functions) discharged on the real functions over EVERY well-formed UTF-8 text of exactly L <= 4 bytes and every usize argument (proof_for_contract for the two loop-only helpers; plain assume-pre/assert-post harnesses over the same predicate functions for the three char_indices-based ones, where proof_for_contract exhausts memory). compute_snippet_slices is verified MODULARLY against those contracts (stub_verified): every slice is non-empty, inside the text, on char boundaries, strictly increasing and non-overlapping, at most max_snippets, slicing never panics, no arithmetic overflow - for every (usize,usize) occurrence value, every window, every max; content: every well-formed text of L <= 4 bytes x k <= 3 occurrences, plus one concrete 24-byte and one 64-byte ASCII text with 2-3 fully symbolic occurrences so that several separate slices are reachable (BOUNDED).',
+        'level_text': 'prev_char_boundary and next_char_boundary: UNBOUNDED Verus proof on the functions extracted verbatim from src/lex.rs (result <= len, on a char boundary, nearest boundary at/below resp. at/above the index; termination). All five helpers (prev/next_char_boundary, sentence_start_before, sentence_end_after, advance_boundary) carry Kani function contracts (requires/ensures injected on the real functions) discharged on the real functions over EVERY well-formed UTF-8 text of exactly L <= 4 bytes and every usize argument (proof_for_contract for the two loop-only helpers; plain assume-pre/assert-post harnesses over the same predicate functions for the three char_indices-based ones, where proof_for_contract exhausts memory). compute_snippet_slices is verified MODULARLY against those contracts (stub_verified): every slice is non-empty, inside the text, on char boundaries, strictly increasing and non-overlapping, at most max_snippets, slicing never panics, no arithmetic overflow - for every (usize,usize) occurrence value, every window, every max; content: every well-formed text of L <= 4 bytes x k <= 3 occurrences, plus one concrete 24-byte and one 64-byte ASCII text with 2 fully symbolic occurrences so that two separate slices are reachable (BOUNDED; the 3-occurrence long-text instances exceed the memory cap and are not registered).',
         'level_note': 'Bounded by text length (<= 4 bytes, which includes every 1-4 byte scalar and mixes) and occurrence count (<= 3). The helpers sentence_start_before / sentence_end_after / advance_boundary iterate with char_indices, which Verus rejects, so their contracts are bounded.',
         'technique': 'Kani function contracts (proof_for_contract + stub_verified, modular) on the real functions; Verus loop invariants for the two char-boundary helpers',
         'design_ref': 'DESIGN.md section 3 (C35)',
@@ -229,12 +229,11 @@ PROPS = {
                 ('snippet_slices_l2_k2', 'thorough', '2 bytes, 2 occurrences'),
                 ('snippet_slices_l3_k2', 'thorough', '3 bytes, 2 occurrences'), ('snippet_slices_l4_k2', 'thorough', '4 bytes, 2 occurrences'),
                 ('snippet_slices_l3_k3', 'thorough', '3 bytes, 3 occurrences'),
-                ('snippet_slices_ascii64_k2', 'thorough', 'one concrete 64-byte ASCII text, 2 symbolic occurrences'),
-                ('snippet_slices_ascii64_k3', 'thorough', 'one concrete 64-byte ASCII text, 3 symbolic occurrences')]]
+                ('snippet_slices_ascii64_k2', 'thorough', 'one concrete 64-byte ASCII text, 2 symbolic occurrences')]]
         ),
         'assumptions': [A_TOOLS, A_TRACE, 'A-STR: str::is_char_boundary(0) and (len) hold and it is false beyond len (std documentation; axioms in the Verus unit, executed bit-precisely under Kani)',
                         'compute_snippet_slices sees its helpers only through their contracts (stub_verified): a helper change is caught by the helper\'s own proof_for_contract'],
-        'not_covered': ['texts longer than 4 bytes / more than 3 occurrences (bounded)'],
+        'not_covered': ['texts longer than 4 bytes with fully symbolic content', 'three or more occurrences on a text long enough to hold three separate slices (snippet_slices_ascii64_k3*: CBMC exceeds 18 GB / does not bound the result loop)'],
         'search': 'lex',
     },
 
